@@ -1,4 +1,4 @@
 SPECIFICATION SpecF
-CONSTANTS NSync=4 MaxClock=2 RetentionEnabled=TRUE Fine=FALSE Variant="m_gap"
+CONSTANTS NSync=4 MaxClock=2 RetentionEnabled=TRUE Fine=FALSE Variant="m_gap" Fixes={}
 INVARIANTS NeverAhead NoSkip SidecarAfterApply Converges NoStallH ResumeAcceptedH ResumeAfterKillH
 CHECK_DEADLOCK FALSE
